@@ -73,4 +73,8 @@ def detInstB (inst : Instance) : Bool :=
   inst.travel.all (fun e => e.2.isDetB) &&
   inst.transports.all (fun t => t.outages.all (fun o => o.dur.isDetB && o.freq.isDetB))
 
+/-- no outage is configured on any machine or AGV (hypothesis of C12's translation invariance) -/
+def noOutagesB (inst : Instance) : Bool :=
+  inst.machines.all (fun m => m.outages.isEmpty) && inst.transports.all (fun t => t.outages.isEmpty)
+
 end JSL
